@@ -6,8 +6,19 @@ MODS = dict(state="quara.objects.state", povm="quara.objects.povm", gate="quara.
 CLS = dict(state="State", povm="Povm", gate="Gate", mprocess="MProcess")
 
 
+def m_count(m):
+    """outcome count; a tuple is a multi-index outcome shape of a measurement process"""
+    if isinstance(m, (tuple, list)):
+        out = 1
+        for k in m:
+            out *= k
+        return out
+    return m
+
+
 def n_var(kind, d, m, on_para):
     n = d * d
+    m = m_count(m)
     if kind == "state":
         return n - 1 if on_para else n
     if kind == "povm":
@@ -29,7 +40,8 @@ def empty_obj(W, kind, c_sys, m, on_para):
         return mod.Povm(c_sys, [np.zeros(n, dtype=np.float64) for _ in range(m)], **kw)
     if kind == "gate":
         return mod.Gate(c_sys, np.zeros((n, n), dtype=np.float64), **kw)
-    return mod.MProcess(c_sys, [np.zeros((n, n), dtype=np.float64) for _ in range(m)], **kw)
+    shape = tuple(m) if isinstance(m, (tuple, list)) else None
+    return mod.MProcess(c_sys, [np.zeros((n, n), dtype=np.float64) for _ in range(m_count(m))], shape=shape, **kw)
 
 
 def all_cfgs(tier):
@@ -62,7 +74,9 @@ class VarObjectRoundTrip(E2Contract):
                "*.convert_var_to_stacked_vector", "*.convert_stacked_vector_to_var", "*.to_stacked_vector")
 
     def configs(self, tier):
-        return all_cfgs(tier)
+        # measurement processes with a multi-index outcome shape (as composition / tensor product produce them) included
+        return all_cfgs(tier) + [("1q", "mprocess", (2, 2), True), ("1q", "mprocess", (3, 2), False)] + (
+            [("1q", "mprocess", (2, 3), True), ("1qt", "mprocess", (2, 2), False)] if tier == "thorough" else [])
 
     def inputs(self, W, cfg, mk):
         s, kind, m, on_para = cfg
@@ -78,8 +92,11 @@ class VarObjectRoundTrip(E2Contract):
         cls = type(tmpl)
         sv = cls.convert_var_to_stacked_vector(inp["c_sys"], inp["var"], on_para)
         var3 = cls.convert_stacked_vector_to_var(inp["c_sys"], sv, on_para)
-        return dict(obj=stacked(W, obj), var2=var2, obj2=stacked(W, obj2), sv=sv, var3=var3,
-                    to_stacked=obj.to_stacked_vector())
+        out = dict(obj=stacked(W, obj), var2=var2, obj2=stacked(W, obj2), sv=sv, var3=var3,
+                   to_stacked=obj.to_stacked_vector())
+        if kind == "mprocess":
+            out["shape"] = [int(k) for k in obj.shape]
+        return out
 
     def post(self, W, cfg, inp, out):
         s, kind, m, on_para = cfg
@@ -92,6 +109,9 @@ class VarObjectRoundTrip(E2Contract):
                  "convert_var_to_stacked_vector(var) == flattened object generated from var"),
               eq("to_stacked_vector", out["to_stacked"], out["sv"], "obj.to_stacked_vector() == convert_var_to_stacked_vector(var)"),
               eq("stacked->var", out["var3"], inp["var"], "convert_stacked_vector_to_var(convert_var_to_stacked_vector(var)) == var")]
+        if kind == "mprocess":
+            cl.append(eq("outcome-shape-kept", out["shape"], list(m) if isinstance(m, (tuple, list)) else [m],
+                         "generate_from_var keeps the outcome shape of the object it is called on"))
         # implied entries exactly as specified
         if on_para:
             if kind == "state":
